@@ -42,34 +42,109 @@ pub fn tree(v: Value, depth: u32) -> String {
 }
 
 type R = Result<Value, ExecutionErrorPayload>;
+
+/// C18: when set, every menu native is registered behind a plain `Fn(&mut Vm)` wrapper that records the k values
+/// on top of the stack BEFORE the typed wrapper of traits.rs converts them, and how the call ended; every native
+/// body records the parameters it received. The records are host-log entries that start with `TDeep`
+/// (no other entry does): [TDeep; TStr name; TInt 0; raw_1 .. raw_k] (call), [TDeep; TStr name; TInt 2; p_1 .. p_k]
+/// (parameters as received), [TDeep; TStr name; TInt 1; TInt r] (return: 0 = Ok, n > 0 = InvalidArgument
+/// "Failed to convert function input #n", -1 = another error). C18Check strips them before the model comparison.
+pub static TRACE_CALLS: std::sync::atomic::AtomicBool = std::sync::atomic::AtomicBool::new(false);
+fn tracing_calls() -> bool {
+    TRACE_CALLS.load(std::sync::atomic::Ordering::Relaxed)
+}
+fn mark(vm: &mut Vm<Host>, name: &str, kind: i64, items: Vec<String>) {
+    if !tracing_calls() {
+        return;
+    }
+    let mut e = vec!["TDeep".to_string(), format!("(TStr {})", out::bytes(name.as_bytes())), tint(kind)];
+    e.extend(items);
+    vm.get_aux_mut().log.push(out::list(e));
+}
+fn tstr(s: &str) -> String {
+    format!("(TStr {})", out::bytes(s.as_bytes()))
+}
+fn table_tree(t: &CaoLangTable) -> String {
+    let items: Vec<String> =
+        t.iter().map(|(k, x)| format!("({}, {})", tree(*k, TREE_DEPTH - 1), tree(*x, TREE_DEPTH - 1))).collect();
+    format!("(TTable {})", out::list(items))
+}
+/// register `f` (a typed wrapper of traits.rs, or a plain function for arity 0) under `name`
+fn reg<F>(vm: &mut Vm<'static, Host>, name: &'static str, k: usize, f: F)
+where
+    F: VmFunction<Host> + 'static,
+{
+    if !tracing_calls() {
+        vm.register_native_function(name, f).unwrap();
+        return;
+    }
+    let wrapped = move |vm: &mut Vm<Host>| -> R {
+        // the values the script supplied: the k topmost stack values, parameter 1 deepest (a missing one reads as
+        // nil); they are popped and pushed back through the public API
+        let (h, _) = cao_lang::verif_hooks::stack_heights(&vm.runtime_data);
+        let n = k.min(h);
+        let mut top_first = vec![];
+        for _ in 0..n {
+            top_first.push(vm.stack_pop());
+        }
+        for v in top_first.iter().rev() {
+            vm.stack_push(*v).unwrap();
+        }
+        let mut raws: Vec<String> = (0..k - n).map(|_| "TNil".to_string()).collect();
+        raws.extend(top_first.iter().rev().map(|v| tree(*v, TREE_DEPTH)));
+        mark(vm, name, 0, raws);
+        let r = f.call(vm);
+        let code: i64 = match &r {
+            Ok(_) => 0,
+            Err(ExecutionErrorPayload::InvalidArgument { context: Some(c) })
+                if c.starts_with("Failed to convert function input #") =>
+            {
+                let rest = &c["Failed to convert function input #".len()..];
+                let num: String = rest.chars().take_while(|ch| ch.is_ascii_digit()).collect();
+                num.parse().unwrap_or(-2)
+            }
+            Err(_) => -1,
+        };
+        mark(vm, name, 1, vec![tint(code)]);
+        r
+    };
+    vm.register_native_function(name, wrapped).unwrap();
+}
 fn n_log1(vm: &mut Vm<Host>, v: Value) -> R {
     let t = tree(v, TREE_DEPTH);
+    mark(vm, "log1", 2, vec![t.clone()]);
     // value-stack height and call depth as the native sees them (its argument is still on the stack)
     let (h, d) = cao_lang::verif_hooks::stack_heights(&vm.runtime_data);
     vm.get_aux_mut().log.push(out::list(vec![format!("(TInt {})", out::z(h as i64)), format!("(TInt {})", out::z(d as i64)), t]));
     Ok(Value::Nil)
 }
 fn n_sub2(vm: &mut Vm<Host>, a: i64, b: i64) -> R {
+    mark(vm, "sub2", 2, vec![tint(a), tint(b)]);
     vm.get_aux_mut().log.push(out::list(vec![format!("(TInt {})", out::z(a)), format!("(TInt {})", out::z(b))]));
     Ok(Value::Integer(a.wrapping_sub(b)))
 }
-fn n_fail0(_vm: &mut Vm<Host>) -> R {
+fn n_fail0(vm: &mut Vm<Host>) -> R {
+    mark(vm, "fail0", 2, vec![]);
     Err(ExecutionErrorPayload::Unimplemented)
 }
 fn n_str1(vm: &mut Vm<Host>, s: &str) -> R {
+    mark(vm, "str1", 2, vec![tstr(s)]);
     vm.get_aux_mut().log.push(out::list(vec![format!("(TStr {})", out::bytes(s.as_bytes()))]));
     Ok(Value::Integer(s.len() as i64))
 }
 fn n_mix3(vm: &mut Vm<Host>, a: f64, b: i64, c: Value) -> R {
+    mark(vm, "mix3", 2, vec![tree(Value::Real(a), 2), tint(b), tree(c, TREE_DEPTH)]);
     let e = out::list(vec![tree(Value::Real(a), 2), format!("(TInt {})", out::z(b)), tree(c, TREE_DEPTH)]);
     vm.get_aux_mut().log.push(e);
     Ok(Value::Nil)
 }
 fn n_call1(vm: &mut Vm<Host>, f: Value, x: Value) -> R {
+    mark(vm, "call1", 2, vec![tree(f, TREE_DEPTH), tree(x, TREE_DEPTH)]);
     vm.stack_push(x)?;
     vm.run_function(f)
 }
 fn n_try1(vm: &mut Vm<Host>, f: Value, x: Value) -> R {
+    mark(vm, "try1", 2, vec![tree(f, TREE_DEPTH), tree(x, TREE_DEPTH)]);
     vm.stack_push(x)?;
     match vm.run_function(f) {
         Ok(v) => Ok(v),
@@ -80,17 +155,20 @@ fn n_try1(vm: &mut Vm<Host>, f: Value, x: Value) -> R {
     }
 }
 fn n_call0(vm: &mut Vm<Host>, f: Value) -> R {
+    mark(vm, "call0", 2, vec![tree(f, TREE_DEPTH)]);
     vm.run_function(f)
 }
 fn tint(i: i64) -> String {
     format!("(TInt {})", out::z(i))
 }
 fn n_t4(vm: &mut Vm<Host>, a: i64, b: f64, c: bool, d: &str) -> R {
+    mark(vm, "t4", 2, vec![tint(a), tree(Value::Real(b), 2), tint(c as i64), tstr(d)]);
     let e = out::list(vec![tint(a), tree(Value::Real(b), 2), tint(c as i64), format!("(TStr {})", out::bytes(d.as_bytes()))]);
     vm.get_aux_mut().log.push(e);
     Ok(Value::Nil)
 }
 fn n_nil1(vm: &mut Vm<Host>, a: Nilable<i64>) -> R {
+    mark(vm, "nil1", 2, vec![match a.0 { None => "TNil".to_string(), Some(i) => tint(i) }]);
     match a.0 {
         None => {
             vm.get_aux_mut().log.push(out::list(vec!["TNil".to_string()]));
@@ -103,11 +181,14 @@ fn n_nil1(vm: &mut Vm<Host>, a: Nilable<i64>) -> R {
     }
 }
 fn n_tab1(vm: &mut Vm<Host>, t: &CaoLangTable) -> R {
+    let tt = table_tree(t);
+    mark(vm, "tab1", 2, vec![tt]);
     let l = t.len() as i64;
     vm.get_aux_mut().log.push(out::list(vec![tint(l)]));
     Ok(Value::Integer(l))
 }
 fn n_cat2(vm: &mut Vm<Host>, a: &str, b: &str) -> R {
+    mark(vm, "cat2", 2, vec![tstr(a), tstr(b)]);
     let e = out::list(vec![format!("(TStr {})", out::bytes(a.as_bytes())), format!("(TStr {})", out::bytes(b.as_bytes()))]);
     vm.get_aux_mut().log.push(e);
     Ok(Value::Integer((a.len() + b.len()) as i64))
@@ -143,6 +224,7 @@ pub static RB1_OK: std::sync::atomic::AtomicU64 = std::sync::atomic::AtomicU64::
 pub static RB1_ERR: std::sync::atomic::AtomicU64 = std::sync::atomic::AtomicU64::new(0);
 /// like call1, and records the stack heights before and after run_function
 fn n_rb1(vm: &mut Vm<Host>, f: Value, x: Value) -> R {
+    mark(vm, "rb1", 2, vec![tree(f, TREE_DEPTH), tree(x, TREE_DEPTH)]);
     let (h0, d0) = cao_lang::verif_hooks::stack_heights(&vm.runtime_data);
     let arity = callee_arity(f);
     vm.stack_push(x)?;
@@ -161,19 +243,19 @@ pub fn new_vm(budget: u64) -> Vm<'static, Host> {
     let mut vm = Vm::new(Host { log: vec![] }).unwrap().with_max_iter(budget);
     // a memory limit that no generated program reaches: no collection runs (Vm.v models a heap that never frees)
     vm.runtime_data = RuntimeData::new(1 << 30, 256, 256).unwrap();
-    vm.register_native_function("log1", into_f1(n_log1)).unwrap();
-    vm.register_native_function("sub2", into_f2(n_sub2)).unwrap();
-    vm.register_native_function("fail0", n_fail0).unwrap();
-    vm.register_native_function("str1", into_f1(n_str1)).unwrap();
-    vm.register_native_function("mix3", into_f3(n_mix3)).unwrap();
-    vm.register_native_function("call1", into_f2(n_call1)).unwrap();
-    vm.register_native_function("try1", into_f2(n_try1)).unwrap();
-    vm.register_native_function("call0", into_f1(n_call0)).unwrap();
-    vm.register_native_function("t4", into_f4(n_t4)).unwrap();
-    vm.register_native_function("nil1", into_f1(n_nil1)).unwrap();
-    vm.register_native_function("tab1", into_f1(n_tab1)).unwrap();
-    vm.register_native_function("cat2", into_f2(n_cat2)).unwrap();
-    vm.register_native_function("rb1", into_f2(n_rb1)).unwrap();
+    reg(&mut vm, "log1", 1, into_f1(n_log1));
+    reg(&mut vm, "sub2", 2, into_f2(n_sub2));
+    reg(&mut vm, "fail0", 0, n_fail0);
+    reg(&mut vm, "str1", 1, into_f1(n_str1));
+    reg(&mut vm, "mix3", 3, into_f3(n_mix3));
+    reg(&mut vm, "call1", 2, into_f2(n_call1));
+    reg(&mut vm, "try1", 2, into_f2(n_try1));
+    reg(&mut vm, "call0", 1, into_f1(n_call0));
+    reg(&mut vm, "t4", 4, into_f4(n_t4));
+    reg(&mut vm, "nil1", 1, into_f1(n_nil1));
+    reg(&mut vm, "tab1", 1, into_f1(n_tab1));
+    reg(&mut vm, "cat2", 2, into_f2(n_cat2));
+    reg(&mut vm, "rb1", 2, into_f2(n_rb1));
     vm
 }
 
@@ -338,7 +420,9 @@ fn find_need(prog: &CaoCompiledProgram, pr: &Printed, hi: u64) -> Option<u64> {
 }
 
 fn opcode_table_case() -> String {
-    let src = std::fs::read_to_string("/repo/cao-lang/src/instruction.rs").expect("instruction.rs");
+    // VERIF_REPO (development aid, as in tools/checklib.py): another checkout of the repository
+    let repo = std::env::var("VERIF_REPO").unwrap_or_else(|_| "/repo".to_string());
+    let src = std::fs::read_to_string(format!("{}/cao-lang/src/instruction.rs", repo)).expect("instruction.rs");
     let start = src.find("pub(crate) enum Instruction {").expect("enum Instruction");
     let body = &src[start..];
     let end = body.find("\n}").unwrap();
@@ -455,6 +539,7 @@ pub fn gen(a: &Args) {
     let mut w = CaseWriter::new(&a.out, module, 8);
     w.push(opcode_table_case(), false);
     if a.prop == "C18" {
+        TRACE_CALLS.store(true, std::sync::atomic::Ordering::Relaxed);
         // names reserved for the library cannot be registered; other names can
         let mut vm = new_vm(1);
         let noop = |_vm: &mut Vm<Host>| -> R { Ok(Value::Nil) };
